@@ -41,6 +41,31 @@ theorem codes_ok :
     (Nb.Gen.C11.extensionCodes.map (·.1)).Nodup ∧ ∀ c ∈ Nb.Gen.C11.extensionCodes.map (·.1), inInt32 c := by
   decide
 
+/-- the one-line integer rules of the reader and the writer, GENERATED from the source AST on every run (loop
+    condition, zero-size stop, read count, content-length check, `size -= esize`, `extsize`, `min_vox_offset`,
+    the three offset tests, `pad`): each is equivalent to the rule every theorem below is proved from.  An
+    equivalent rewrite of a source line keeps this provable; a different rule (`size > 16`, `<=`, a dropped
+    `extstart`, …) breaks it. -/
+theorem rules_ok :
+    (∀ s, Nb.Gen.C11.readLoopCond s = true ↔ (s ≥ 16 ∨ s < 0)) ∧
+    (∀ e, Nb.Gen.C11.zeroSizeStops e = true ↔ e = 0) ∧
+    (∀ e, Nb.Gen.C11.readCount e = e - 8) ∧
+    (∀ g e, Nb.Gen.C11.contentLenOk g e = true ↔ g = e - 8) ∧
+    (∀ s e, Nb.Gen.C11.sizeAfter s e = s - e) ∧
+    (∀ v t, Nb.Gen.C11.extSize v t = v - t) ∧
+    (∀ a b, Nb.Gen.C11.minVoxOffset a b = a + b) ∧
+    (∀ v, Nb.Gen.C11.offsetUnset v = true ↔ v = 0) ∧
+    (∀ v m, Nb.Gen.C11.offsetTooSmall v m = true ↔ v < m) ∧
+    (∀ v m, Nb.Gen.C11.storedBelow v m = true ↔ v < m) ∧
+    (∀ x r t, Nb.Gen.C11.padBytes x r t = x + r - t) :=
+  ⟨fun s => by rw [readLoopCond_eq], fun e => by rw [zeroSizeStops_eq], readCount_eq,
+   fun g e => by rw [contentLenOk_eq], sizeAfter_eq, extSize_eq, minVoxOffset_eq,
+   fun v => by rw [offsetUnset_eq], fun v m => by rw [offsetTooSmall_eq], fun v m => by rw [storedBelow_eq],
+   padBytes_eq⟩
+
+example : Nb.Gen.C11.readLoopCond 16 = true ∧ Nb.Gen.C11.readLoopCond 15 = false ∧ Nb.Gen.C11.readLoopCond (-1) = true := by
+  decide
+
 /-! ## byte level -/
 
 /-- int32 codec used for esize / ecode: decoding the four bytes written gives the value back, both byte orders -/
@@ -155,7 +180,7 @@ theorem fits_shipped (xs : List Ext) (userOff : Nat) :
       have hm' := hm h0
       have hmod := totalSize_mod16 xs
       have hnn := totalSize_nonneg xs
-      have hmin : minOffset nifti1 xs = (nifti1.singleOff : Int) + totalSize xs := rfl
+      have hmin : minOffset nifti1 xs = (nifti1.singleOff : Int) + totalSize xs := minOffset_eq nifti1 xs
       have h352 : nifti1.singleOff % 16 = 0 := by decide
       exact exact_mul16 nifti1 _ (by omega) (by omega)
 
@@ -182,7 +207,7 @@ theorem offset_ok (fmt : Fmt) (e : Endian) (xs : List Ext) (data : List Nat) (hf
   obtain ⟨hge, hex, h16⟩ := offFill_spec fmt (minOffset fmt xs).toNat
   have hnn := totalSize_nonneg xs
   have hm := totalSize_mod16 xs
-  have hmin : minOffset fmt xs = (fmt.singleOff : Int) + totalSize xs := rfl
+  have hmin : minOffset fmt xs = (fmt.singleOff : Int) + totalSize xs := minOffset_eq fmt xs
   rw [if_pos rfl] at hc
   obtain ⟨_, hf2, hf3⟩ := hf
   refine ⟨_, bytes, hw, hser, ?_, ?_, ?_, hroom⟩
@@ -214,7 +239,7 @@ theorem offset_ok_shipped (e : Endian) (xs : List Ext) (data : List Nat) (hok : 
   · intro hm
     have hmod := totalSize_mod16 xs
     have hnn := totalSize_nonneg xs
-    have hmin : minOffset nifti1 xs = (nifti1.singleOff : Int) + totalSize xs := rfl
+    have hmin : minOffset nifti1 xs = (nifti1.singleOff : Int) + totalSize xs := minOffset_eq nifti1 xs
     have h352 : nifti1.singleOff % 16 = 0 := by decide
     obtain ⟨f, bytes, hw, hs, _, hex, h16, hroom⟩ := offset_ok nifti1 e xs data hf.1 hok hd
     exact ⟨f, bytes, hw, hs, hex (exact_mul16 nifti1 _ (by omega) (by omega)), h16, hroom⟩
@@ -246,6 +271,34 @@ theorem offset_nifti1_f4_orig_counterexample :
     exact ⟨by decide, by show inInt32 (sizeOnDisk (List.replicate 268435488 7).length); rw [hlen, hsz]; decide⟩
   · unfold chooseOffset; rw [htot]; decide
   · unfold chooseOffset; rw [htot]; decide
+
+/-- The sizes-only form of the header writer used by the `voff` correspondence stream (totals up to 2^33 without
+    the bytes) is the same rule as the full save: whenever a single-file save of `xs` succeeds, the sizes-only
+    run on the content LENGTHS of `xs` reports the offset that save stored and the end of the extension block. -/
+theorem sizes_only_agrees (fmt : Fmt) (e : Endian) (xs : List Ext) (userOff : Nat) (data : List Nat) (f : HFile)
+    (hok : AllOK xs) (hw : writeSingle fmt e xs userOff data = .ok f) :
+    headerWriteSizes true fmt (xs.map (·.content.length)) userOff =
+      .ok (f.voxOffset, fmt.hdrSize + 4 + (totalSize xs).toNat) := by
+  obtain ⟨hc, _⟩ := writeSingle_voxOffset fmt e xs userOff data f hw
+  have hsum : ∀ ys : List Ext, ((ys.map (·.content.length)).map sizeOnDisk).sum = totalSize ys := by
+    intro ys
+    induction ys with
+    | nil => rfl
+    | cons y ys ih => simp only [List.map_cons, List.sum_cons, totalSize, ih]
+  have hovf : (xs.map (·.content.length)).any (fun n => ¬ inInt32 (sizeOnDisk n)) = false := by
+    rw [List.any_eq_false]
+    intro n hn
+    obtain ⟨x, hx, rfl⟩ := List.mem_map.mp hn
+    have := (hok x hx).2
+    simpa using this
+  unfold headerWriteSizes
+  simp only [if_true, hsum, hovf]
+  unfold chooseOffset at hc
+  rw [hc, bind_ok]
+  simp
+
+example : headerWriteSizes true nifti1 [268435488] 0 = .ok (268435872, 268435856) ∧
+    headerWriteSizes true nifti2 [2, 0] 0 = .ok (576, 576) := by decide
 
 /-- `small_offset_rejected`.  An explicit offset whose stored value is below `single_vox_offset + Σ sizes` is
     refused with HeaderDataError — for ANY extension list (no validity guard needed: the check comes first).
@@ -354,14 +407,14 @@ theorem single_roundtrip_shipped (e : Endian) (xs : List Ext) (userOff : Nat) (d
   · intro hoff
     obtain ⟨hfit, hc⟩ := (fits_shipped xs userOff).1 hoff
     obtain ⟨f, hw, hv, hr⟩ := single_roundtrip_stored nifti2 e xs userOff data hf.2 hok hd hfit
-    have hmin : minOffset nifti2 xs = (nifti2.singleOff : Int) + totalSize xs := rfl
+    have hmin : minOffset nifti2 xs = (nifti2.singleOff : Int) + totalSize xs := minOffset_eq nifti2 xs
     refine ⟨f, hw, ?_, hr⟩
     rw [hv, hc]
     split <;> omega
   · intro hoff hu hm
     obtain ⟨hfit, hc⟩ := (fits_shipped xs userOff).2 hoff hu hm
     obtain ⟨f, hw, hv, hr⟩ := single_roundtrip_stored nifti1 e xs userOff data hf.1 hok hd hfit
-    have hmin : minOffset nifti1 xs = (nifti1.singleOff : Int) + totalSize xs := rfl
+    have hmin : minOffset nifti1 xs = (nifti1.singleOff : Int) + totalSize xs := minOffset_eq nifti1 xs
     refine ⟨f, hw, ?_, hr⟩
     rw [hv, hc]
     split <;> omega
